@@ -70,10 +70,22 @@ theorem C05_getitem_bit (a : ABuf) (i : Nat) (hi : i < a.length) :
   simp only [ABuf.slice, Bits.slice, Nat.add_sub_cancel_left] at this
   exact this
 
-/-- concatenation, all nine branches: bits of `a` then bits of `b`, on `a`'s side; both operands unchanged -/
+/-- concatenation, all nine branches: bits of `a` then bits of `b`, on `a`'s side … -/
 theorem C05_add (a b : ABuf) :
-    Buf.add (Buf.ofABuf a) (Buf.ofABuf b) = .ok (Buf.ofABuf ⟨a.bits ++ b.bits, a.side⟩, Buf.ofABuf a, Buf.ofABuf b) :=
-  add_spec a b
+    (Buf.add (Buf.ofABuf a) (Buf.ofABuf b)).map (·.1) = .ok (Buf.ofABuf ⟨a.bits ++ b.bits, a.side⟩) :=
+  add_val a b
+
+/-- … and both operands are left unchanged (this half needs the two internal re-paddings of `__add__` to be
+    `inplace=False`, which is what the regenerated flags say) -/
+theorem C05_add_operands (a b : ABuf) :
+    Buf.add (Buf.ofABuf a) (Buf.ofABuf b) = .ok (Buf.ofABuf ⟨a.bits ++ b.bits, a.side⟩, Buf.ofABuf a, Buf.ofABuf b) := by
+  have h : addAfter a b = b := by
+    obtain ⟨A, sa⟩ := a; obtain ⟨B, sb⟩ := b
+    have h1 : Gen.addPadInplace1 = false := rfl
+    have h2 : Gen.addPadInplace2 = false := rfl
+    unfold addAfter
+    cases sa <;> simp [h1, h2]
+  rw [add_spec, h]; rfl
 
 /-- re-padding keeps the bits and moves the padding; not in place, the operand is unchanged; in place, the operand
     becomes the result -/
